@@ -8,16 +8,18 @@
      fx_sorted_enum  D11  prep_initfiles iterates the names in sorted order
      fx_dash_hides   D12  Type=- in a link file hides (as it does in .cap)
      fx_num_unset    D17  a LinkEntry starts with num = None (not 0)
-     fx_remove_safe       hiding the same file twice does not raise *)
+     fx_remove_safe  D21  hiding the same file twice does not raise
+     fx_dot_safe     D22  a dot entry that is not a readable regular file is
+                          left alone instead of being opened as a link file *)
 From Coq Require Import ZArith String.
 From PG Require Import Lib.Str Lib.Cmp Lib.Sort Model.DirEntry.
 Local Open Scope N_scope.
 
 Record fixes := mkFixes {
   fx_skip_child : bool; fx_sorted_enum : bool; fx_dash_hides : bool;
-  fx_num_unset : bool; fx_remove_safe : bool }.
-Definition pinned : fixes := mkFixes false false false false false.
-Definition repaired : fixes := mkFixes true true true true true.
+  fx_num_unset : bool; fx_remove_safe : bool; fx_dot_safe : bool }.
+Definition pinned : fixes := mkFixes false false false false false false.
+Definition repaired : fixes := mkFixes true true true true true true.
 
 (* ---------- helpers with Python semantics ---------- *)
 
